@@ -19,7 +19,7 @@ import encutils
 
 from mc import guard
 from mc.model import ref_encutils as ref
-from mc.result import Result, h64
+from mc.result import Result, h64, jdump
 
 ID = 'C20'
 LEVEL = 'exploration'
@@ -406,22 +406,31 @@ def judge_table(case, res=None):
 
 def _reduce(case, clause, sym, steps, judge):
     """Greedy one-at-a-time minimisation (fixed order, hence deterministic): an ingredient is replaced by its neutral element
-    whenever *this* violation (clause + symptom) survives the replacement.  What is left non-neutral in the minimal witness
-    is the essential set: neutralising any one of them makes the violation disappear."""
+    whenever *this* violation (clause + symptom) survives the replacement; passes are repeated until nothing can be
+    neutralised any more.  What is left non-neutral in the minimal witness is the essential set: neutralising any one of
+    them makes the violation disappear."""
     cur = case
-    while True:
-        for _name, c2 in steps(cur):
-            if any(v[0] == clause and v[1] == sym for v in judge(c2)):
-                cur = c2
+    changed = True
+    while changed:
+        changed = False
+        tried = set()
+        while True:
+            for name, c2 in steps(cur):
+                if name in tried:
+                    continue
+                tried.add(name)
+                if any(v[0] == clause and v[1] == sym for v in judge(c2)):
+                    cur = c2
+                    changed = True
+                break  # the steps of the (possibly smaller) witness are computed afresh
+            else:
                 break
-        else:
-            break
     need = [n for n, _ in steps(cur)]
     # an essential spelling parameter implies the whole construct is essential: keep the finer one
     for k in ('decl', 'meta'):
         if k in need and any(n.startswith(k + '.') for n in need):
             need.remove(k)
-    return need
+    return sorted(need)
 
 
 def _neutral_steps(case):
@@ -429,6 +438,11 @@ def _neutral_steps(case):
     steps = []
     if case['as'] != 'str':
         steps.append(('as=' + case['as'], dict(case, **{'as': 'str'})))
+    # whole constructs first (a removed construct has no spelling left to try, and the smaller cases repeat: see _CACHE)
+    if case['decl'] is not None:
+        steps.append(('decl', dict(case, decl=None)))
+    if case['meta'] is not None:
+        steps.append(('meta', dict(case, meta=None)))
     if case['stub'] == 'plain':
         steps.append(('stub=plain', dict(case, stub='message' if case['mt'] is not None else 'noresponse')))
     if case['charset'] is not None:
@@ -439,17 +453,28 @@ def _neutral_steps(case):
         for p in DECL_PARAMS:
             if case['decl'][p] != DECL_DEFAULT[p]:
                 steps.append(('decl.' + p, dict(case, decl=dict(case['decl'], **{p: DECL_DEFAULT[p]}))))
-        steps.append(('decl', dict(case, decl=None)))
     if case['meta'] is not None:
         for p in META_PARAMS:
             if case['meta'][p] != META_DEFAULT[p]:
                 steps.append(('meta.' + p, dict(case, meta=dict(case['meta'], **{p: META_DEFAULT[p]}))))
-        steps.append(('meta', dict(case, meta=None)))
     return steps
 
 
+_CACHE = {}  # verdicts of table rows met in this shard (the counterfactuals of different rows coincide); cleared per shard
+
+
+def _verdict(case):
+    k = jdump(case)
+    v = _CACHE.get(k)
+    if v is None:
+        if len(_CACHE) > 200000:
+            _CACHE.clear()
+        v = _CACHE[k] = judge_table(case)[0]
+    return v
+
+
 def essential(case, clause, sym):
-    return _reduce(case, clause, sym, _neutral_steps, lambda c: judge_table(c)[0])
+    return _reduce(case, clause, sym, _neutral_steps, _verdict)
 
 
 def _size(case):
@@ -471,6 +496,7 @@ def run_table_case(res, case):
     if case['charset'] or case['bom'] or case['decl'] or case['meta']:
         res.nontrivial += 1
     vs, outcome = judge_table(case, res)
+    _CACHE[jdump(case)] = vs
     res.outcomes.add(h64(['table', outcome]))
     for clause, sym, exp, obs in vs:
         klass = klass_of(case)
@@ -867,6 +893,7 @@ def _with_alarm(fn):
 
 def run_shard(shard, tier, seed):
     guard.pristine()
+    _CACHE.clear()
     res = Result(seed)
     kind = shard[0]
 
@@ -888,6 +915,7 @@ def run_shard(shard, tier, seed):
 
 def replay(case, tier, seed):
     guard.pristine()
+    _CACHE.clear()
     res = Result(seed)
 
     def go():
